@@ -194,6 +194,15 @@ def _task(task):
         R2, I2 = np.meshgrid(pool, zeros)
         re = np.concatenate([R1.ravel(), R2.ravel()]).astype(f.ftype)
         im = np.concatenate([I1.ravel(), I2.ravel()]).astype(f.ftype)
+    elif kind == "diag":
+        # |re| == |im| exactly (the algorithms branch on ax == ay) and its 1-ULP neighbours
+        a1, _ = gen_components(rng, f, n // 2, "G1")
+        a2, _ = gen_components(rng, f, n - n // 2, "G2")
+        re = np.concatenate([a1, a2]).astype(f.ftype)
+        im = (re * rng.choice([-1.0, 1.0], size=n).astype(f.ftype)).astype(f.ftype)
+        nb = rng.integers(0, 6, size=n)
+        with np.errstate(all="ignore"):
+            im = np.where(nb == 0, np.nextafter(im, f.ftype(np.inf)), np.where(nb == 1, np.nextafter(im, f.ftype(-np.inf)), im)).astype(f.ftype)
     elif kind == "pool":
         pool = pool_values(f)
         a = pool[rng.integers(0, len(pool), size=n)]
@@ -241,7 +250,7 @@ def run(ctx):
     ctx.rule = (
         "complex64 and complex128 inputs from: G1 uniform over bit patterns of both components, G2 components log-uniform in 2^-12..2^12, "
         "the full special-value lattice^2 (+-0 kept distinct, subnormals, +-1, +-largest, +-inf, +-1..3 ULP neighbours), both axes "
-        "(re=+-0 / im=+-0) crossed with the threshold pool read out of the graphs, and pool x random mixes; identities: conj (14 functions, "
+        "(re=+-0 / im=+-0) crossed with the threshold pool read out of the graphs, pool x random mixes, and the diagonals |re| == |im| with 1-ULP neighbours; identities: conj (14 functions, "
         "im != 0), odd (asin, asinh, atan, atanh; off the axis carrying the cut), even (square), asinh=-i asin(iz), atan=-i atanh(iz), "
         "acosh=+-i acos, imag acos=-imag asin; real asin/asinh odd and square even. Comparison of bit patterns with NaNs identified. "
         "Non-trivial = input without zero component whose asin value is finite and non-zero; distinct by input bits."
@@ -251,7 +260,7 @@ def run(ctx):
     for fb in (32, 64):
         n = 120000 if q else 6000000
         sh = 2 if q else 16
-        for kind in ("G1", "G2", "pool"):
+        for kind in ("G1", "G2", "pool", "diag"):
             for s in range(sh):
                 tasks.append((fb, kind, n // sh, (ctx.seed, 3, fb, s, len(kind))))
         tasks.append((fb, "lattice", 0, (0,)))
